@@ -20,6 +20,8 @@ type Content struct {
 	V   int  `json:"v"`
 	Sz  int  `json:"sz"`
 	Wal bool `json:"wal"`
+	// Z: a page of zero bytes (SQLite extended the file over a page it never wrote)
+	Z bool `json:"z,omitempty"`
 }
 
 // Layout maps model pages to real pages (DESIGN 3.2). Real pages that are not the image of a model
@@ -94,6 +96,9 @@ func prng(seed uint64, b []byte) {
 // PageBytes concretises a model content for real page r. Fillers use Content{V:0}.
 func (l Layout) PageBytes(r uint32, c Content) []byte {
 	b := make([]byte, l.PageSize)
+	if c.Z {
+		return b
+	}
 	prng(uint64(r)<<20^uint64(c.V+1), b)
 	if r == 1 {
 		copy(b, dbMagic)
@@ -129,6 +134,9 @@ func (l Layout) DecodePage(r uint32, b []byte) (Content, bool) {
 		return Content{}, false
 	}
 	var c Content
+	if r != 1 && isZero(b) {
+		return Content{Z: true}, true
+	}
 	if r == 1 {
 		if !bytes.HasPrefix(b, []byte(dbMagic)) {
 			return c, false
@@ -146,6 +154,15 @@ func (l Layout) DecodePage(r uint32, b []byte) (Content, bool) {
 		return c, false
 	}
 	return c, true
+}
+
+func isZero(b []byte) bool {
+	for _, x := range b {
+		if x != 0 {
+			return false
+		}
+	}
+	return true
 }
 
 // Image is a concrete database image: real page number -> bytes, plus size in real pages.
